@@ -1356,3 +1356,549 @@ Proof.
   - apply perm_trans with [mkrec [97] 0 [] []; mkrec [97] 5 [] []; mkrec [97] 0 [] []]; [apply perm_skip; apply perm_swap | apply perm_swap].
   - vm_compute. repeat split; discriminate.
 Qed.
+
+(** ====================================================================================================
+    Round 3 *)
+From Coq Require Import Sorted Arith.
+
+(** * round 3: classifier tables and ISequenceSubChunk *)
+Lemma index_of_some : forall tbl v k, index_of v tbl = Some k -> nth_error tbl k = Some v.
+Proof.
+  induction tbl as [|w t IH]; intros v k H; cbn [index_of] in H; [discriminate|].
+  destruct (lN_eqb v w) eqn:E.
+  - inversion H; subst k. apply lN_eqb_eq in E. subst w. reflexivity.
+  - destruct (index_of v t) as [k'|] eqn:E'; cbn in H; [|discriminate]. inversion H; subst k. cbn. apply IH. exact E'.
+Qed.
+
+Lemma index_of_none : forall tbl v, index_of v tbl = None -> ~ In v tbl.
+Proof.
+  induction tbl as [|w t IH]; intros v H; [intros []|]. cbn [index_of] in H.
+  destruct (lN_eqb v w) eqn:E; [discriminate|]. destruct (index_of v t) eqn:E'; [discriminate|].
+  intros [Hw|Hin]; [subst w; rewrite lN_eqb_refl in E; discriminate | exact (IH v E' Hin)].
+Qed.
+
+Lemma code1_value : forall tbl v, cvalue (snd (code1 tbl v)) (fst (code1 tbl v)) = Some v.
+Proof.
+  intros tbl v. unfold code1, cvalue. destruct (index_of v tbl) as [k|] eqn:E; cbn [fst snd].
+  - apply index_of_some. exact E.
+  - rewrite nth_error_app2 by lia. rewrite Nat.sub_diag. reflexivity.
+Qed.
+
+(* a code stays decodable as long as the table is not reset *)
+Lemma code1_keeps : forall tbl v k w, cvalue tbl k = Some w -> cvalue (snd (code1 tbl v)) k = Some w.
+Proof.
+  intros tbl v k w H. unfold code1, cvalue in *. destruct (index_of v tbl); cbn [snd]; [exact H|].
+  rewrite nth_error_app1; [exact H|]. apply nth_error_Some. congruence.
+Qed.
+
+Lemma code1_nodup : forall tbl v, NoDup tbl -> NoDup (snd (code1 tbl v)).
+Proof.
+  intros tbl v H. unfold code1. destruct (index_of v tbl) eqn:E; cbn [snd]; [exact H|].
+  apply NoDup_app_intro; [exact H | constructor; [intros []|constructor] |].
+  intros x Hx [Hv|[]]. subst x. exact (index_of_none _ _ E Hx).
+Qed.
+
+Lemma code1_ext : forall tbl v, exists ext, snd (code1 tbl v) = tbl ++ ext.
+Proof.
+  intros tbl v. unfold code1. destruct (index_of v tbl); cbn [snd]; [exists []; rewrite app_nil_r; reflexivity | exists [v]; reflexivity].
+Qed.
+
+Lemma table_after_ext : forall vs tbl, exists ext, table_after tbl vs = tbl ++ ext.
+Proof.
+  induction vs as [|v t IH]; intros tbl; cbn [table_after]; [exists []; rewrite app_nil_r; reflexivity|].
+  destruct (code1_ext tbl v) as [e1 E1]. destruct (IH (snd (code1 tbl v))) as [e2 E2].
+  exists (e1 ++ e2). rewrite E2, E1, app_assoc. reflexivity.
+Qed.
+
+Lemma table_after_nodup : forall vs tbl, NoDup tbl -> NoDup (table_after tbl vs).
+Proof. induction vs as [|v t IH]; intros tbl H; cbn [table_after]; [exact H | apply IH, code1_nodup, H]. Qed.
+
+(* every value is decoded by the final table at its code *)
+Lemma encode_decodes : forall vs tbl,
+  Forall2 (fun v k => nth_error (table_after tbl vs) k = Some v) vs (encode_from tbl vs).
+Proof.
+  induction vs as [|v t IH]; intros tbl; cbn [encode_from table_after]; constructor; [|apply IH].
+  destruct (table_after_ext t (snd (code1 tbl v))) as [ext E]. rewrite E.
+  pose proof (code1_value tbl v) as H. unfold cvalue in H.
+  rewrite nth_error_app1; [exact H|]. apply nth_error_Some. congruence.
+Qed.
+
+Lemma Forall2_nth {A B} (R : A -> B -> Prop) l l' : Forall2 R l l' ->
+  forall i a, nth_error l i = Some a -> exists b, nth_error l' i = Some b /\ R a b.
+Proof.
+  induction 1 as [|x y l l' Hxy _ IH]; intros i a Hi; [destruct i; discriminate|].
+  destruct i as [|i]; cbn in *; [inversion Hi; subst; exists y; auto | apply IH; exact Hi].
+Qed.
+
+Lemma NoDup_nth_eq {A} (l : list A) i j a : NoDup l -> nth_error l i = Some a -> nth_error l j = Some a -> i = j.
+Proof.
+  intros ND Hi Hj. apply (proj1 (NoDup_nth_error l) ND); [apply nth_error_Some; congruence | congruence].
+Qed.
+
+Lemma codes_separate : forall vs i j vi vj, nth_error vs i = Some vi -> nth_error vs j = Some vj ->
+  (nth_error (encode_from [] vs) i = nth_error (encode_from [] vs) j <-> vi = vj).
+Proof.
+  intros vs i j vi vj Hi Hj.
+  destruct (Forall2_nth _ _ _ (encode_decodes vs []) i vi Hi) as [ki [Eki Hki]].
+  destruct (Forall2_nth _ _ _ (encode_decodes vs []) j vj Hj) as [kj [Ekj Hkj]].
+  rewrite Eki, Ekj. split.
+  - intro E. inversion E; subst kj. congruence.
+  - intro E. subst vj. f_equal. exact (NoDup_nth_eq _ _ _ _ (table_after_nodup vs [] (NoDup_nil _)) Hki Hkj).
+Qed.
+
+Lemma value_of_code : forall vs i vi, nth_error vs i = Some vi ->
+  exists k, nth_error (encode_from [] vs) i = Some k /\ cvalue (table_after [] vs) k = Some vi.
+Proof. intros vs i vi Hi. exact (Forall2_nth _ _ _ (encode_decodes vs []) i vi Hi). Qed.
+
+(** the table is [dedup]: the values in order of first appearance *)
+Definition notin (tbl : list (list N)) (c : list N) : bool := negb (existsb (lN_eqb c) tbl).
+
+Lemma notin_true : forall tbl c, notin tbl c = true <-> ~ In c tbl.
+Proof.
+  intros tbl c. unfold notin. rewrite negb_true_iff. split.
+  - intros H Hin. assert (existsb (lN_eqb c) tbl = true) by (apply existsb_exists; exists c; split; [exact Hin | apply lN_eqb_refl]). congruence.
+  - intro H. destruct (existsb (lN_eqb c) tbl) eqn:E; [|reflexivity]. apply existsb_exists in E. destruct E as [x [Hx Ex]].
+    apply lN_eqb_eq in Ex. subst x. contradiction.
+Qed.
+
+Lemma filter_ext_in' {A} (p q : A -> bool) l : (forall x, In x l -> p x = q x) -> filter p l = filter q l.
+Proof.
+  induction l as [|a l IH]; intro H; [reflexivity|]. cbn. rewrite (H a (or_introl eq_refl)), IH; [reflexivity|].
+  intros x Hx. apply H. right. exact Hx.
+Qed.
+
+Lemma table_after_dedup : forall vs tbl, table_after tbl vs = tbl ++ filter (notin tbl) (dedup vs).
+Proof.
+  induction vs as [|v t IH]; intros tbl; cbn [table_after dedup]; [cbn; rewrite app_nil_r; reflexivity|].
+  rewrite IH. unfold code1. destruct (index_of v tbl) as [k|] eqn:E; cbn [snd].
+  - assert (Hin : In v tbl) by (eapply nth_error_In, index_of_some, E).
+    cbn [filter]. replace (notin tbl v) with false by (symmetry; apply not_true_iff_false; rewrite notin_true; tauto).
+    rewrite filter_filter. f_equal. apply filter_ext_in'. intros x _.
+    destruct (lN_eqb v x) eqn:Ex; cbn; [|reflexivity]. apply lN_eqb_eq in Ex. subst x.
+    apply not_true_iff_false. rewrite notin_true. tauto.
+  - pose proof (index_of_none _ _ E) as Hn. cbn [filter].
+    replace (notin tbl v) with true by (symmetry; apply notin_true; exact Hn).
+    rewrite <- app_assoc. cbn [app]. do 2 f_equal. rewrite filter_filter. apply filter_ext_in'. intros x _.
+    unfold notin. rewrite existsb_app. cbn [existsb]. rewrite orb_false_r, negb_orb.
+    rewrite andb_comm. f_equal. f_equal.
+    destruct (lN_eqb v x) eqn:E1, (lN_eqb x v) eqn:E2; try reflexivity.
+    + apply lN_eqb_eq in E1. subst x. rewrite lN_eqb_refl in E2. discriminate.
+    + apply lN_eqb_eq in E2. subst x. rewrite lN_eqb_refl in E1. discriminate.
+Qed.
+
+Lemma table_is_dedup : forall vs, table_after [] vs = dedup vs.
+Proof. intro vs. rewrite table_after_dedup. cbn [app]. apply filter_true. intros x _. reflexivity. Qed.
+
+Section SubChunkProofs.
+  Context {A : Type}.
+  Variable f : A -> list N.
+  Notation cell := (nat * A)%type.
+
+  Definition has (j : nat) (x : cell) : bool := (fst x =? j)%nat.
+
+  Lemma runs_head : forall (t : list cell) y t', t = y :: t' -> exists r rs, runs t = (y :: r) :: rs.
+  Proof.
+    induction t as [|x t IH]; intros y t' E; [discriminate|]. inversion E; subst x t'. cbn [runs].
+    destruct t as [|z t'']; [cbn; eauto|].
+    destruct (IH z t'' eq_refl) as [r [rs Er]]. rewrite Er. destruct (fst y =? fst z)%nat; eauto.
+  Qed.
+
+  (* a non-empty block of code k in front of a list that starts with another code is the first run *)
+  Lemma runs_app : forall (a rest : list cell) k, a <> [] -> (forall x, In x a -> fst x = k) ->
+    (forall y, In y rest -> fst y <> k) -> runs (a ++ rest) = a :: runs rest.
+  Proof.
+    induction a as [|x a IH]; intros rest k Hne Ha Hrest; [congruence|].
+    destruct a as [|x' a'].
+    - cbn [app runs]. destruct rest as [|y rest']; [reflexivity|].
+      destruct (runs_head (y :: rest') y rest' eq_refl) as [r [rs Er]]. rewrite Er.
+      assert (fst x =? fst y = false)%nat as ->; [|reflexivity].
+      apply Nat.eqb_neq. rewrite (Ha x (or_introl eq_refl)). intro E. apply (Hrest y (or_introl eq_refl)). auto.
+    - change ((x :: x' :: a') ++ rest) with (x :: ((x' :: a') ++ rest)). cbn [runs].
+      rewrite (IH rest k); [|discriminate | intros z Hz; apply Ha; right; exact Hz | exact Hrest].
+      assert (fst x =? fst x' = true)%nat as ->; [|reflexivity].
+      apply Nat.eqb_eq. rewrite (Ha x (or_introl eq_refl)), (Ha x' (or_intror (or_introl eq_refl))). reflexivity.
+  Qed.
+
+  Lemma sorted_split : forall (s : list cell) k, StronglySorted le (map fst s) -> (forall x, In x s -> (k <= fst x)%nat) ->
+    s = filter (has k) s ++ filter (fun x => negb (has k x)) s.
+  Proof.
+    induction s as [|x s IH]; intros k Hs Hge; [reflexivity|]. cbn [map] in Hs. inversion Hs as [|? ? Hs' Hall]; subst.
+    cbn [filter]. destruct (has k x) eqn:E; cbn [negb]; unfold has in E.
+    - cbn [app]. f_equal. apply IH; [exact Hs' | intros y Hy; apply Hge; right; exact Hy].
+    - (* x has a larger code: nothing after it has code k *)
+      assert (Hnone : filter (has k) s = []).
+      { apply filter_false. intros y Hy. unfold has. apply Nat.eqb_neq.
+        rewrite Forall_forall in Hall. specialize (Hall (fst y) (in_map fst _ _ Hy)).
+        apply Nat.eqb_neq in E. specialize (Hge x (or_introl eq_refl)). lia. }
+      rewrite Hnone. cbn [app]. f_equal. rewrite filter_true; [reflexivity|].
+      intros y Hy. apply negb_true_iff. destruct (has k y) eqn:Ey; [|reflexivity].
+      assert (In y (filter (has k) s)) by (apply filter_In; auto). rewrite Hnone in H. destruct H.
+  Qed.
+
+  Lemma sorted_filter : forall (p : cell -> bool) (s : list cell), StronglySorted le (map fst s) -> StronglySorted le (map fst (filter p s)).
+  Proof.
+    induction s as [|x s IH]; intro Hs; [constructor|]. cbn [map] in Hs. inversion Hs as [|? ? Hs' Hall]; subst.
+    cbn [filter]. destruct (p x); [|apply IH; exact Hs']. cbn [map]. constructor; [apply IH; exact Hs'|].
+    rewrite Forall_forall in *. intros n Hn. apply in_map_iff in Hn. destruct Hn as [y [Ey Hy]]. subst n.
+    apply Hall. apply in_map. apply filter_In in Hy. tauto.
+  Qed.
+
+  (* a sorted list whose codes are exactly k .. k+n-1: its runs are the blocks of each code, in order *)
+  Lemma runs_blocks : forall n k (s : list cell), StronglySorted le (map fst s) ->
+    (forall x, In x s -> (k <= fst x < k + n)%nat) -> (forall j, (k <= j < k + n)%nat -> exists x, In x s /\ fst x = j) ->
+    runs s = map (fun j => filter (has j) s) (seq k n).
+  Proof.
+    induction n as [|n IH]; intros k s Hs Hin Hall.
+    - destruct s as [|x s]; [reflexivity|]. specialize (Hin x (or_introl eq_refl)). lia.
+    - cbn [seq map].
+      rewrite (sorted_split s k Hs) at 1 by (intros x Hx; apply Hin in Hx; lia).
+      rewrite (runs_app _ _ k).
+      + f_equal. rewrite (IH (S k)).
+        * apply map_ext_in. intros j Hj. apply in_seq in Hj. rewrite filter_filter. apply filter_ext_in'. intros x _.
+          unfold has. destruct (fst x =? j)%nat eqn:E; [|rewrite andb_false_r; reflexivity].
+          apply Nat.eqb_eq in E. assert (fst x =? k = false)%nat as -> by (apply Nat.eqb_neq; lia). reflexivity.
+        * apply sorted_filter. exact Hs.
+        * intros x Hx. apply filter_In in Hx. destruct Hx as [Hx Hk]. apply Hin in Hx. apply negb_true_iff in Hk. unfold has in Hk. apply Nat.eqb_neq in Hk. lia.
+        * intros j Hj. destruct (Hall j) as [x [Hx Ex]]; [lia|]. exists x. split; [|exact Ex]. apply filter_In. split; [exact Hx|].
+          apply negb_true_iff. unfold has. apply Nat.eqb_neq. lia.
+      + destruct (Hall k) as [x [Hx Ex]]; [lia|]. intro E.
+        assert (In x (filter (has k) s)) by (apply filter_In; split; [exact Hx | unfold has; apply Nat.eqb_eq; exact Ex]).
+        rewrite E in H. destruct H.
+      + intros x Hx. apply filter_In in Hx. destruct Hx as [_ Hx]. unfold has in Hx. apply Nat.eqb_eq. exact Hx.
+      + intros y Hy. apply filter_In in Hy. destruct Hy as [_ Hy]. apply negb_true_iff in Hy. unfold has in Hy. apply Nat.eqb_neq. exact Hy.
+  Qed.
+
+  (* the cells of code j of the coded batch are the records whose value is the j-th entry of the table *)
+  Lemma coded_class : forall (T : list (list N)) (b : list A) (codes : list nat) j c, NoDup T -> nth_error T j = Some c ->
+    Forall2 (fun r k => nth_error T k = Some (f r)) b codes ->
+    map snd (filter (has j) (combine codes b)) = filter (fun r => lN_eqb c (f r)) b.
+  Proof.
+    intros T b codes j c ND Hj H. induction H as [|r k b codes Hr _ IH]; [reflexivity|].
+    cbn [combine filter]. unfold has at 1. cbn [fst].
+    destruct (k =? j)%nat eqn:E.
+    - apply Nat.eqb_eq in E. subst k. assert (c = f r) by congruence. subst c. rewrite lN_eqb_refl. cbn [map snd]. f_equal. exact IH.
+    - destruct (lN_eqb c (f r)) eqn:E2; [|exact IH]. apply lN_eqb_eq in E2. subst c.
+      apply Nat.eqb_neq in E. exfalso. apply E. exact (NoDup_nth_eq _ _ _ _ ND Hr Hj).
+  Qed.
+
+  Lemma coded_forall2 : forall b, Forall2 (fun r k => nth_error (dedup (map f b)) k = Some (f r)) b (encode_from [] (map f b)).
+  Proof.
+    intro b. pose proof (encode_decodes (map f b) []) as H. rewrite table_is_dedup in H.
+    remember (encode_from [] (map f b)) as codes. clear Heqcodes. remember (dedup (map f b)) as T. clear HeqT.
+    revert codes H. induction b as [|r b IH]; intros codes H; inversion H; subst; constructor; auto.
+  Qed.
+
+  Lemma Forall2_map_seq {X Y} (R : X -> Y -> Prop) (F : nat -> X) (G : list N -> Y) : forall (T : list (list N)) k,
+    (forall j c, nth_error T j = Some c -> R (F (k + j)%nat) (G c)) -> Forall2 R (map F (seq k (length T))) (map G T).
+  Proof.
+    induction T as [|c T IH]; intros k H; cbn [length seq map]; constructor.
+    - specialize (H 0%nat c eq_refl). rewrite Nat.add_0_r in H. exact H.
+    - apply IH. intros j c' Hj. specialize (H (S j) c' Hj). rewrite Nat.add_succ_r in H. exact H.
+  Qed.
+
+  Lemma combine_in : forall (b : list A) (codes : list nat) (P : A -> nat -> Prop), Forall2 P b codes ->
+    (forall x, In x (combine codes b) -> P (snd x) (fst x)) /\ (forall r, In r b -> exists k, In (k, r) (combine codes b)).
+  Proof.
+    intros b codes P H. induction H as [|r k b codes Hr _ [IH1 IH2]]; [split; [intros x []|intros r []]|]. split.
+    - intros x [E|Hx]; [subst x; exact Hr | apply IH1; exact Hx].
+    - intros r' [E|Hr']; [subst r'; exists k; left; reflexivity | destruct (IH2 r' Hr') as [k' Hk']; exists k'; right; exact Hk'].
+  Qed.
+
+  (** whatever (possibly unstable) sort orders the coded records by code, the maximal runs of equal codes are, in order,
+      rearrangements of the classes of the specification (classes in order of first appearance) *)
+  Theorem subchunk_any_sort : forall (b : list A) (s : list cell),
+    Permutation s (coded f b) -> StronglySorted le (map fst s) ->
+    Forall2 (@Permutation A) (classes_of_sorted s) (groupsA f b).
+  Proof.
+    intros b s Hp Hs. set (T := dedup (map f b)).
+    assert (ND : NoDup T) by apply dedup_NoDup.
+    pose proof (coded_forall2 b) as HF. fold T in HF.
+    destruct (combine_in _ _ _ HF) as [Hc1 Hc2]. fold (coded f b) in Hc1, Hc2.
+    assert (Hruns : runs s = map (fun j => filter (has j) s) (seq 0 (length T))).
+    { apply runs_blocks; [exact Hs | |].
+      - intros x Hx. apply (Permutation_in _ Hp) in Hx. specialize (Hc1 x Hx). cbn beta in Hc1.
+        assert (fst x < length T)%nat by (apply nth_error_Some; congruence). lia.
+      - intros j Hj. destruct (nth_error T j) as [c|] eqn:Ec; [|apply nth_error_None in Ec; lia].
+        assert (In c (map f b)) by (apply dedup_In; fold T; eapply nth_error_In, Ec).
+        apply in_map_iff in H. destruct H as [r [Er Hr]]. destruct (Hc2 r Hr) as [k Hk].
+        exists (k, r). split; [apply (Permutation_in _ (Permutation_sym Hp)); exact Hk|]. cbn [fst].
+        specialize (Hc1 _ Hk). cbn [fst snd] in Hc1. rewrite Er in Hc1. exact (NoDup_nth_eq _ _ _ _ ND Hc1 Ec). }
+    unfold classes_of_sorted, groupsA. fold T. rewrite Hruns, map_map.
+    apply Forall2_map_seq. intros j c Hj. cbn [Nat.add].
+    rewrite <- (coded_class T b (encode_from [] (map f b)) j c ND Hj HF).
+    apply Permutation_map. apply Permutation_filter. exact Hp.
+  Qed.
+
+  Lemma insert_perm : forall (x : cell) l, Permutation (insert_code x l) (x :: l).
+  Proof.
+    induction l as [|y l IH]; cbn [insert_code]; [reflexivity|]. destruct (fst x <=? fst y)%nat; [reflexivity|].
+    rewrite IH. apply perm_swap.
+  Qed.
+
+  Lemma sort_codes_perm : forall l : list cell, Permutation (sort_codes l) l.
+  Proof. induction l as [|x l IH]; cbn; [reflexivity|]. rewrite insert_perm. constructor. exact IH. Qed.
+
+  Lemma insert_sorted : forall (x : cell) l, StronglySorted le (map fst l) -> StronglySorted le (map fst (insert_code x l)).
+  Proof.
+    induction l as [|y l IH]; intro Hs; cbn [insert_code map]; [constructor; constructor|].
+    cbn [map] in Hs. inversion Hs as [|? ? Hs' Hall]; subst.
+    destruct (fst x <=? fst y)%nat eqn:E.
+    - cbn [map]. apply Nat.leb_le in E. constructor; [exact Hs|]. constructor; [exact E|].
+      rewrite Forall_forall in *. intros n Hn. specialize (Hall n Hn). lia.
+    - cbn [map]. apply Nat.leb_gt in E. constructor; [apply IH; exact Hs'|].
+      rewrite Forall_forall in *. intros n Hn.
+      apply in_map_iff in Hn. destruct Hn as [z [Ez Hz]]. subst n.
+      apply (Permutation_in _ (insert_perm x l)) in Hz. destruct Hz as [Hz|Hz]; [subst z; lia | apply Hall; apply in_map; exact Hz].
+  Qed.
+
+  Lemma sort_codes_sorted : forall l : list cell, StronglySorted le (map fst (sort_codes l)).
+  Proof. induction l as [|x l IH]; cbn; [constructor | apply insert_sorted; exact IH]. Qed.
+
+  (** in particular for the sort the model evaluates *)
+  Corollary subchunk_classes : forall b, Forall2 (@Permutation A) (subchunk f b) (groupsA f b).
+  Proof. intro b. apply subchunk_any_sort; [apply sort_codes_perm | apply sort_codes_sorted]. Qed.
+End SubChunkProofs.
+
+Lemma groups_is_groupsA : forall f l, groups f l = groupsA f l.
+Proof. reflexivity. Qed.
+
+(** * obidemerge -d key:weight *)
+Lemma demerge1w_same : forall k r, demerge1w k k r = demerge1 k r.
+Proof. reflexivity. Qed.
+
+Lemma demerge1w_spec : forall a k r m, lookup k (umerged r) = Some m ->
+  map (fun r' => (lookup a (uann r'), ucount r')) (demerge1w a k r) = map (fun vw => (Some (strval (fst vw)), clamp1 (snd vw))) m /\
+  forall r', In r' (demerge1w a k r) -> useq r' = useq r /\ lookup k (umerged r') = None.
+Proof.
+  intros a k r m Hm. unfold demerge1w. rewrite Hm. split.
+  - rewrite map_map. apply map_ext. intros vw. cbn [uann ucount lookup]. rewrite N.eqb_refl. reflexivity.
+  - intros r' Hr'. apply in_map_iff in Hr'. destruct Hr' as [vw [E _]]. subst r'. cbn [useq umerged]. split; [reflexivity | apply lookup_mremove].
+Qed.
+
+(** * obiuniq -m key:w | obidemerge -d key:w | obiuniq -m key *)
+Section DemergeW.
+  Variable na : N.
+  Variable a s : N.          (* attribute key, slot key:weight *)
+  Variable ds : dspec.       (* descriptors of the first pass *)
+
+  Lemma lookup_mremove_other {V} : forall (m : list (N * V)) k k', lookup k m = None -> lookup k (mremove k' m) = None.
+  Proof.
+    induction m as [|[k0 v] t IH]; intros k k' H; cbn [mremove lookup] in *; [reflexivity|].
+    destruct (k =? k0) eqn:E; [discriminate|]. destruct (k' =? k0); [apply IH; exact H|]. cbn [lookup]. rewrite E. apply IH. exact H.
+  Qed.
+
+  Lemma demerge1w_seq : forall r r', In r' (demerge1w a s r) -> useq r' = useq r.
+  Proof.
+    intros r r' H. unfold demerge1w in H. destruct (lookup s (umerged r)) as [m|].
+    - apply in_map_iff in H. destruct H as [vw [E _]]. subst r'. reflexivity.
+    - destruct H as [H|[]]. subst r'. reflexivity.
+  Qed.
+
+  Lemma demerge1w_contrib : forall r m v, lookup s (umerged r) = Some m -> lookup a (mremove s (umerged r)) = None ->
+    (forall vw, In vw m -> (1 <= snd vw)%Z) ->
+    zsum (fun r' => stat_get v (smap dflt na r' a)) (demerge1w a s r) = stat_get v m.
+  Proof.
+    intros r m v Hm Hnone Hpos. unfold demerge1w. rewrite Hm. rewrite zsum_map.
+    clear Hm. induction m as [|[v' w] t IH]; cbn [zsum stat_get]; [reflexivity|].
+    rewrite IH; [|intros vw Hvw; apply Hpos; right; exact Hvw]. f_equal.
+    unfold smap. cbn [umerged]. rewrite Hnone. unfold sval, wgt, dflt. cbn [uann lookup fst snd ucount strval vstat]. rewrite N.eqb_refl.
+    pose proof (Hpos (v', w) (or_introl eq_refl)) as Hw. cbn [snd] in Hw.
+    rewrite clamp1_pos by exact Hw. cbn [stat_get strval vstat]. lia.
+  Qed.
+
+  Lemma demerge1w_count : forall r m, lookup s (umerged r) = Some m ->
+    (forall vw, In vw m -> (1 <= snd vw)%Z) -> zsum ucount (demerge1w a s r) = zsum snd m.
+  Proof.
+    intros r m Hm Hpos. unfold demerge1w. rewrite Hm. rewrite zsum_map.
+    clear Hm. induction m as [|[v' w] t IH]; cbn [zsum]; [reflexivity|].
+    rewrite IH; [|intros vw Hvw; apply Hpos; right; exact Hvw]. f_equal. cbn [ucount snd].
+    pose proof (Hpos (v', w) (or_introl eq_refl)) as Hw. cbn [snd] in Hw.
+    rewrite clamp1_pos by exact Hw. reflexivity.
+  Qed.
+
+  Lemma filter_demergew_none : forall (outs : list urec) (sq : list N) (p : urec -> bool),
+    (forall o, In o outs -> useq o <> sq) -> (forall r, useq r <> sq -> p r = false) ->
+    flat_map (fun x => filter p (demerge1w a s x)) outs = [].
+  Proof.
+    induction outs as [|o outs IH]; intros sq p Hall Hno; [reflexivity|]. cbn [flat_map].
+    rewrite filter_false.
+    - cbn. apply (IH sq); [intros o' Ho'; apply Hall; right; exact Ho' | exact Hno].
+    - intros r Hr. apply Hno. rewrite (demerge1w_seq _ _ Hr). apply Hall. left. reflexivity.
+  Qed.
+
+  Lemma filter_demergew_unique : forall (outs : list urec) o1 (p : urec -> bool),
+    NoDup (map useq outs) -> In o1 outs ->
+    (forall r, useq r = useq o1 -> p r = true) -> (forall r, useq r <> useq o1 -> p r = false) ->
+    filter p (demergew a s outs) = demerge1w a s o1.
+  Proof.
+    intros outs o1 p Hnd Hin Hyes Hno. unfold demergew. rewrite filter_flat_map.
+    induction outs as [|o outs IH]; [destruct Hin|]. cbn [flat_map]. cbn [map] in Hnd. inversion Hnd as [|s0 l0 Hnotin Hnd']; subst.
+    destruct Hin as [E|Hin].
+    - subst o. rewrite filter_true; [|intros r Hr; apply Hyes; apply demerge1w_seq; exact Hr].
+      rewrite (filter_demergew_none outs (useq o1) p); [apply app_nil_r | | exact Hno].
+      intros o Ho Hc. apply Hnotin. rewrite <- Hc. apply in_map. exact Ho.
+    - rewrite filter_false.
+      + cbn. apply IH; assumption.
+      + intros r Hr. apply Hno. rewrite (demerge1w_seq _ _ Hr). intro Hc. apply Hnotin. rewrite Hc. apply in_map. exact Hin.
+  Qed.
+
+  Lemma demergew_pos : forall outs, pos_counts outs -> pos_counts (demergew a s outs).
+  Proof.
+    intros outs P r Hr. unfold demergew in Hr. apply in_flat_map in Hr. destruct Hr as [o [Ho Hr]].
+    unfold demerge1w in Hr. destruct (lookup s (umerged o)) as [m|].
+    - apply in_map_iff in Hr. destruct Hr as [vw [E _]]. subst r. cbn [ucount]. apply clamp1_ge.
+    - destruct Hr as [E|[]]. subst r. apply P. exact Ho.
+  Qed.
+
+  Lemma demergew_inverse : forall h n h' n' l, pos_counts l ->
+    let out1 := uniq h n [] ds [s] na false l in
+    (forall o m vw, In o out1 -> lookup s (umerged o) = Some m -> In vw m -> (1 <= snd vw)%Z) ->
+    (forall o, In o out1 -> a = s \/ lookup a (umerged o) = None) ->
+    forall o2, In o2 (uniq h' n' [] dflt [a] na false (demergew a s out1)) ->
+    exists o1 m1 m2, In o1 out1 /\ useq o2 = useq o1 /\
+      lookup s (umerged o1) = Some m1 /\ lookup a (umerged o2) = Some m2 /\
+      (forall v, stat_get v m2 = stat_get v m1) /\ ucount o2 = zsum snd m1.
+  Proof.
+    intros h n h' n' l PC out1 Hpos Hfree o2 Ho2.
+    assert (PC2 : pos_counts (demergew a s out1)) by (apply demergew_pos; apply uniq_out_pos).
+    destruct (out_char [] dflt [a] na h' n' false _ o2 (typed_nil _) Ho2) as [x2 [rest2 [Ef [Eo [_ Hx2]]]]].
+    unfold demergew in Hx2. apply in_flat_map in Hx2. destruct Hx2 as [o1 [Ho1 Hx2]].
+    assert (Hs : In s [s]) by (left; reflexivity). assert (Ha : In a [a]) by (left; reflexivity).
+    destruct (uniq_merged [] ds [s] na h n false l o1 s PC (typed_nil _) Ho1 Hs) as [m1 [Hm1 _]].
+    destruct (uniq_merged [] dflt [a] na h' n' false _ o2 a PC2 (typed_nil _) Ho2 Ha) as [m2 [Hm2 Hs2]].
+    assert (Hseq : useq o2 = useq o1).
+    { rewrite Eo, (proj1 (merge1_seq_ann dflt na [a] x2 rest2)), mergef_seq. apply demerge1w_seq. exact Hx2. }
+    assert (Hnd : NoDup (map useq out1)).
+    { pose proof (uniq_keys_nodup [] ds [s] na h n false l (typed_nil _)) as H. fold out1 in H.
+      apply (NoDup_map_inv (fun sq => (sq, @nil N))). rewrite map_map. exact H. }
+    assert (Ecls : filter (same_key [] na o2) (demergew a s out1) = demerge1w a s o1).
+    { apply filter_demergew_unique; auto.
+      - intros r Hr. unfold same_key. cbn [map]. rewrite Hseq, <- Hr, lN_eqb_refl. reflexivity.
+      - intros r Hr. unfold same_key. cbn [map]. rewrite Hseq.
+        destruct (lN_eqb (useq o1) (useq r)) eqn:E; [apply lN_eqb_eq in E; congruence | reflexivity]. }
+    assert (Hnone : lookup a (mremove s (umerged o1)) = None).
+    { destruct (Hfree o1 Ho1) as [E|E]; [subst a; apply lookup_mremove | apply lookup_mremove_other; exact E]. }
+    exists o1, m1, m2. repeat split; auto.
+    - intro v. rewrite Hs2, Ecls. apply demerge1w_contrib; [exact Hm1 | exact Hnone |]. intros vw Hvw. exact (Hpos o1 m1 vw Ho1 Hm1 Hvw).
+    - rewrite (uniq_count [] dflt [a] na h' n' false _ o2 PC2 (typed_nil _) Ho2), Ecls.
+      apply demerge1w_count; [exact Hm1|]. intros vw Hvw. exact (Hpos o1 m1 vw Ho1 Hm1 Hvw).
+  Qed.
+End DemergeW.
+
+(** * the stable sort of the evaluated model *)
+Section SubChunkStable.
+  Context {A : Type}.
+  Variable f : A -> list N.
+  Notation cell := (nat * A)%type.
+
+  Lemma filter_insert_code : forall j (x : cell) l,
+    filter (has j) (insert_code x l) = if has j x then x :: filter (has j) l else filter (has j) l.
+  Proof.
+    intros j x. induction l as [|y l IH]; cbn [insert_code].
+    - cbn [filter]. destruct (has j x); reflexivity.
+    - destruct (fst x <=? fst y)%nat eqn:E.
+      + cbn [filter]. destruct (has j x); reflexivity.
+      + apply Nat.leb_gt in E. cbn [filter]. rewrite IH. destruct (has j x) eqn:Hx; [|reflexivity].
+        assert (has j y = false) as ->; [|reflexivity].
+        unfold has in *. apply Nat.eqb_eq in Hx. apply Nat.eqb_neq. lia.
+  Qed.
+
+  Lemma filter_sort_codes : forall j (l : list cell), filter (has j) (sort_codes l) = filter (has j) l.
+  Proof.
+    intros j. induction l as [|x l IH]; [reflexivity|]. cbn [sort_codes fold_right]. fold (sort_codes l).
+    rewrite filter_insert_code, IH. cbn [filter]. reflexivity.
+  Qed.
+
+  Lemma Forall2_eq {X} (l l' : list X) : Forall2 eq l l' -> l = l'.
+  Proof. induction 1; [reflexivity | subst; reflexivity]. Qed.
+
+  (** with the stable sort the model evaluates, the batches pushed are exactly the classes of the specification *)
+  Theorem subchunk_stable : forall b : list A, subchunk f b = groupsA f b.
+  Proof.
+    intro b. set (T := dedup (map f b)).
+    assert (ND : NoDup T) by apply dedup_NoDup.
+    pose proof (coded_forall2 f b) as HF. fold T in HF.
+    destruct (combine_in _ _ _ HF) as [Hc1 Hc2]. fold (coded f b) in Hc1, Hc2.
+    pose proof (sort_codes_perm (coded f b)) as Hp.
+    assert (Hruns : runs (sort_codes (coded f b)) = map (fun j => filter (has j) (sort_codes (coded f b))) (seq 0 (length T))).
+    { apply runs_blocks; [apply sort_codes_sorted | |].
+      - intros x Hx. apply (Permutation_in _ Hp) in Hx. specialize (Hc1 x Hx). cbn beta in Hc1.
+        assert (fst x < length T)%nat by (apply nth_error_Some; congruence). lia.
+      - intros j Hj. destruct (nth_error T j) as [c|] eqn:Ec; [|apply nth_error_None in Ec; lia].
+        assert (In c (map f b)) by (apply dedup_In; fold T; eapply nth_error_In, Ec).
+        apply in_map_iff in H. destruct H as [r [Er Hr]]. destruct (Hc2 r Hr) as [k Hk].
+        exists (k, r). split; [apply (Permutation_in _ (Permutation_sym Hp)); exact Hk|]. cbn [fst].
+        specialize (Hc1 _ Hk). cbn [fst snd] in Hc1. rewrite Er in Hc1. exact (NoDup_nth_eq _ _ _ _ ND Hc1 Ec). }
+    unfold subchunk, classes_of_sorted, groupsA. fold T. rewrite Hruns, map_map.
+    apply Forall2_eq. apply Forall2_map_seq. intros j c Hj. cbn [Nat.add].
+    rewrite filter_sort_codes. exact (coded_class f T b (encode_from [] (map f b)) j c ND Hj HF).
+  Qed.
+End SubChunkStable.
+
+(** * histories of calls on one classifier object *)
+(* the state after a history: the table and the codes returned so far (one entry per step) *)
+Fixpoint hist_state (tbl : list (list N)) (codes : list (option nat)) (h : list cstep) : list (list N) * list (option nat) :=
+  match h with
+  | [] => (tbl, codes)
+  | SCode v :: t => hist_state (snd (code1 tbl v)) (codes ++ [Some (fst (code1 tbl v))]) t
+  | SValue j :: t => hist_state tbl (codes ++ [None]) t
+  | SReset :: t => hist_state [] (codes ++ [None]) t
+  end.
+
+Lemma run_hist_app : forall h1 h2 tbl codes,
+  run_hist tbl codes (h1 ++ h2) = run_hist tbl codes h1 ++ run_hist (fst (hist_state tbl codes h1)) (snd (hist_state tbl codes h1)) h2.
+Proof.
+  induction h1 as [|st h1 IH]; intros h2 tbl codes; [reflexivity|].
+  destruct st as [v|j|]; cbn [app run_hist hist_state]; rewrite IH; reflexivity.
+Qed.
+
+Lemma run_hist_length : forall h tbl codes, length (run_hist tbl codes h) = length h.
+Proof. induction h as [|st h IH]; intros tbl codes; [reflexivity|]. destruct st; cbn [run_hist length]; rewrite IH; reflexivity. Qed.
+
+Lemma hist_state_codes : forall h tbl codes, exists ext, snd (hist_state tbl codes h) = codes ++ ext /\ length ext = length h.
+Proof.
+  induction h as [|st h IH]; intros tbl codes; [exists []; rewrite app_nil_r; auto|].
+  destruct st as [v|j|]; cbn [hist_state];
+    [destruct (IH (snd (code1 tbl v)) (codes ++ [Some (fst (code1 tbl v))])) as [e [E L]]
+    |destruct (IH tbl (codes ++ [None])) as [e [E L]]
+    |destruct (IH [] (codes ++ [None])) as [e [E L]]];
+    rewrite E, <- app_assoc; eexists; split; try reflexivity; cbn [app length]; rewrite L; reflexivity.
+Qed.
+
+Definition no_reset (h : list cstep) : Prop := forall st, In st h -> st <> SReset.
+
+(* without Reset a decodable code stays decodable *)
+Lemma hist_state_keeps : forall h tbl codes k w, no_reset h -> cvalue tbl k = Some w -> cvalue (fst (hist_state tbl codes h)) k = Some w.
+Proof.
+  induction h as [|st h IH]; intros tbl codes k w NR H; [exact H|].
+  assert (NR' : no_reset h) by (intros s Hs; apply NR; right; exact Hs).
+  destruct st as [v|j|]; cbn [hist_state].
+  - apply IH; [exact NR' | apply code1_keeps; exact H].
+  - apply IH; assumption.
+  - exfalso. apply (NR SReset); [left; reflexivity | reflexivity].
+Qed.
+
+(** Whatever happened before (Resets included), a value coded at step [length pre] is returned by Value of that code
+    at any later step, as long as no Reset occurs in between. *)
+Theorem value_after_code : forall pre v mid post, no_reset mid ->
+  nth_error (run_hist [] [] (pre ++ SCode v :: mid ++ SValue (length pre) :: post)) (length pre + 1 + length mid) = Some (OVal (Some v)).
+Proof.
+  intros pre v mid post NR.
+  rewrite run_hist_app. rewrite nth_error_app2 by (rewrite run_hist_length; lia). rewrite run_hist_length.
+  replace (length pre + 1 + length mid - length pre)%nat with (S (length mid)) by lia.
+  set (T0 := fst (hist_state [] [] pre)). set (C0 := snd (hist_state [] [] pre)).
+  cbn [run_hist nth_error].
+  rewrite run_hist_app. rewrite nth_error_app2 by (rewrite run_hist_length; lia). rewrite run_hist_length, Nat.sub_diag.
+  cbn [run_hist nth_error]. do 2 f_equal.
+  destruct (hist_state_codes pre [] []) as [e0 [E0 L0]]. fold C0 in E0. cbn [app] in E0.
+  destruct (hist_state_codes mid (snd (code1 T0 v)) (C0 ++ [Some (fst (code1 T0 v))])) as [e1 [E1 L1]].
+  rewrite E1. rewrite <- app_assoc. rewrite app_nth2 by (rewrite E0; lia).
+  replace (length pre - length C0)%nat with 0%nat by (rewrite E0; lia). cbn [app nth].
+  apply hist_state_keeps; [exact NR | apply code1_value].
+Qed.
+
+(** ... and a Reset in between makes the old code meaningless: the table restarts empty (codes restart at 0) *)
+Lemma reset_restarts : forall pre v, run_hist [] [] (pre ++ [SReset; SCode v]) = run_hist [] [] pre ++ [ONone; OCode 0].
+Proof.
+  intros pre v. rewrite run_hist_app. f_equal.
+Qed.
